@@ -493,7 +493,47 @@ def run_qdq(c):
                     ok, detail = O.same(r1, r2, cm, 1e-6)
                     if not ok and len(fails) < 5:
                         fails.append((Fail("MISMATCH", f"history-dependent:{nA}->{nD}->{nB}", str(detail)[:200]), c))
-    return Batch(n_eval, n_eval, fails, [c] if n_eval else [], {f"d{d}": n_eval})
+    # second pass: parameterless property reads as the query before and after the derivation
+    def read(o, attr):
+        r = getattr(o, attr)
+        r = r() if attr in CALLS else r
+        return list(r) if hasattr(r, "__next__") else r
+
+    attrs = [a for a in READS + CALLS if a not in ("copy", "__iter__") and hasattr(type(X), a)]
+    n_reads = 0
+    for attrA in attrs:
+        for nD, fD in derivers:
+            pool = extend_pool(d, O.pool_for(d, v))
+            run(read, [pool[x], attrA])
+            st_, der = run(fD, [pool])
+            if st_ != "ok":
+                continue
+            ders = [y for y in (der if isinstance(der, (list, tuple)) else [der]) if isinstance(y, G.base.Tensor) and type(y) is type(X) and y.array.shape == X.array.shape]
+            for y in ders[:1]:
+                try:
+                    z = fresh(y)
+                except Exception:  # noqa: BLE001
+                    continue
+                for attrB in attrs:
+                    s1, r1 = run(read, [y, attrB])
+                    s2, r2 = run(read, [z, attrB])
+                    n_reads += 1
+                    if s1 != s2:
+                        if len(fails) < 8:
+                            fails.append((Fail("MISMATCH", f"history-dependent-exception:{attrA}->{nD}->{attrB}", f"{s1}/{s2}"), c))
+                        continue
+                    if s1 == "exc":
+                        continue
+                    cm = "multiset" if isinstance(r1, (list, tuple)) and r1 and all(isinstance(w, G.base.Tensor) for w in r1) else "auto"
+                    if digest(r1) == digest(r2):
+                        continue
+                    try:
+                        ok, detail = O.same(r1, r2, cm, 1e-6)
+                    except TypeError:  # not a numeric value (str, tuple of ints, ...): plain equality
+                        ok, detail = (repr(r1) == repr(r2)), (repr(r1)[:80], repr(r2)[:80])
+                    if not ok and len(fails) < 8:
+                        fails.append((Fail("MISMATCH", f"history-dependent:{attrA}->{nD}->{attrB}", str(detail)[:200]), c))
+    return Batch(n_eval + n_reads, n_eval + n_reads, fails, [c] if n_eval + n_reads else [], {f"d{d}": n_eval, f"d{d}:property-reads": n_reads})
 
 
 LAWS = [
